@@ -21,7 +21,7 @@ RULE = ("schemas with required fields (with and without defaults), schema-level 
         "are own required fields / schema validators of a disabled sub-configuration; inserted list items with a "
         "missing required field must be rejected; non-trivial = >= 1 returning call judged plus >= 1 further call (returning or raising); distinct = "
         "distinct (schema, calls)")
-REQUIRED = ("feature_flags_redeclared_as_plain_booleans", "schemas_with_shared_validator_decorator", "schemas_with_sections_named_like_config_methods", "sections_shared_with_a_second_parent", "loads_with_empty_required_values", "reinsertions_of_invalidated_members", "calls_returned_judged", "calls_raised", "required_walks", "validator_log_checks", "collect_mode_compared",
+REQUIRED = ("trees_with_a_section_given_as_configuration_object", "same_file_loaded_again_after_in_place_change", "feature_flags_redeclared_as_plain_booleans", "schemas_with_shared_validator_decorator", "schemas_with_sections_named_like_config_methods", "sections_shared_with_a_second_parent", "loads_with_empty_required_values", "reinsertions_of_invalidated_members", "calls_returned_judged", "calls_raised", "required_walks", "validator_log_checks", "collect_mode_compared",
             "exemption_cases_judged", "list_item_insertions_judged", "call:load_tree", "call:loads", "call:load", "call:validate",
             "flags_off_seen", "failing_validators_seen")
 ASSUMPTIONS = ["one-directional: nothing is demanded of calls that raise, except the exemption of disabled sub-configurations",
@@ -105,6 +105,16 @@ def generate(rng, ctx):
             elif rng.random() < 0.2:
                 call["emptied"] = _empty_some_required(rng, schema, call["tree"])
             call["fmt"] = rng.choice(trees.FORMATS)
+            if kind == "load" and rng.random() < 0.5:
+                # the same file again: the configuration is changed in place after a load (a required value is taken away),
+                # then the file -- untouched, or rewritten under the same name -- is loaded once more
+                call["again"] = rng.choice(["untouched", "untouched", "rewritten"])
+            if kind == "load_tree" and rng.random() < 0.3:
+                # a section of the tree is given as a configuration object of the section's schema instead of a map
+                secs = [ch["key"] for ch in schema["fields"] if ch["kind"] == "schema" and isinstance(call["tree"].get(ch["key"]), dict)]
+                if secs:
+                    call["as_object"] = rng.choice(secs)
+                    call["object_drop"] = rng.random() < 0.6
         if kind == "insert":
             lists = [(p, nd) for p, nd in spec.walk(schema) if nd["kind"] == "field" and nd["family"] == "list"
                      and nd.get("item") and nd["item"]["kind"] != "field" and "[]" not in p]
@@ -262,6 +272,24 @@ def run(case, ctx, res):
             from ..common import Snapshot
 
             label, pred = drv._predict_load(call["tree"], Snapshot(cfg))
+        skip_fv = None
+        if kind == "load_tree" and call.get("as_object"):
+            key = call["as_object"]
+            nd = spec.node_at(root, key)
+            try:
+                obj = drv.built.schema[key]()
+                sub = dict(tree[key])
+                if call.get("object_drop"):
+                    # leave out what the section requires
+                    for ch in model.fields_of(nd)["fields"]:
+                        if ch["kind"] == "field" and ch.get("params", {}).get("required"):
+                            sub.pop(ch["key"], None)
+                obj.load_tree(sub, validate=False)
+                tree[key] = obj
+                label, skip_fv = None, key
+                res.count("trees_with_a_section_given_as_configuration_object")
+            except Exception:
+                res.count("section_object_not_applicable")
         try:
             if kind == "load_tree":
                 cfg.load_tree(tree)
@@ -276,6 +304,18 @@ def run(case, ctx, res):
                     with open(path, "wb") as fp:
                         fp.write(doc)
                     cfg.load(path, call["fmt"])
+                    if call.get("again"):
+                        # take a required value away in place, then load the file of this call once more
+                        taken = _take_required_away(cc, cfg, root, tree)
+                        if taken:
+                            if call["again"] == "rewritten":
+                                st = os.stat(path)
+                                with open(path, "wb") as fp:
+                                    fp.write(doc)
+                                os.utime(path, ns=(st.st_atime_ns, st.st_mtime_ns))
+                            mark = len(log)
+                            cfg.load(path, call["fmt"])
+                            res.count("same_file_loaded_again_after_in_place_change")
             else:
                 cfg.validate()
             err = None
@@ -350,6 +390,8 @@ def run(case, ctx, res):
                 return
         if kind != "validate":
             for p, nd in _loaded_fields_with_validators(root, call["tree"]):
+                if skip_fv is not None and (p == skip_fv or p.startswith(skip_fv + ".")):
+                    continue  # that section was filled in before the call
                 v = _value_at(values, p)
                 if v is None:
                     continue
@@ -359,6 +401,26 @@ def run(case, ctx, res):
                     return
     if returned and (raised or returned >= 2):
         res.nontrivial(case["schema"], case["calls"])
+
+
+def _take_required_away(cc, cfg, root, tree):
+    """Unset, in place, one required value that the tree supplies (top level or one section down).  -> path or None"""
+    for ch in model.fields_of(root)["fields"]:
+        k = ch["key"]
+        if k not in tree:
+            continue
+        if ch["kind"] == "field" and ch.get("params", {}).get("required") and ch["params"].get("default") is None \
+                and ch["family"] not in ("flag", "include", "virtual", "method"):
+            v = cfg[k]
+            try:
+                if ch["family"] in ("list", "dict") and len(v):
+                    v.clear()
+                else:
+                    cc.reset_value(cfg, k)
+            except Exception:
+                continue
+            return k
+    return None
 
 
 def _value_at(values, path):
